@@ -6,6 +6,7 @@ import (
 	"fmt"
 	"math"
 	"math/big"
+	"slices"
 	"sort"
 
 	"github.com/creachadair/mds/stree"
@@ -133,11 +134,11 @@ type treeRun struct {
 	cheapKey *int64 // see after()
 
 	// measurements
-	monoRun, drained, twoChild, clones, drainEmpty int
-	minSlack                                       int
-	delRebuild                                     bool
-	maxHeight                                      int
-	succUp2                                        bool
+	monoRun, drained, twoChild, clones, drainEmpty, pruned int
+	minSlack                                               int
+	delRebuild                                             bool
+	maxHeight                                              int
+	succUp2                                                bool
 }
 
 func (r *treeRun) compare(a, b Key) int {
@@ -940,6 +941,46 @@ func (r *treeRun) apply(op Op) string {
 				return msg
 			}
 		}
+		return ""
+	case "prune":
+		// remove the keys that do NOT lie on the path from the root to a deepest
+		// leaf (all of them, or every other one): the tree shrinks while its
+		// height stays what the peak size allowed, until a rebuild happens
+		leaf, _, ok := deepestLeaf(in.t)
+		if !ok {
+			return ""
+		}
+		onPath := map[int64]bool{}
+		for c, d := in.t.Root(), 0; c.Valid(); d++ {
+			walkGuard(d, in.t.Len())
+			k := c.Key().K
+			onPath[k] = true
+			if leaf.K < k {
+				c.Left()
+			} else if leaf.K > k {
+				c.Right()
+			} else {
+				break
+			}
+		}
+		ks := append([]Key(nil), in.m.ks...)
+		if op.A%2 == 1 { // from the top end first
+			slices.Reverse(ks)
+		}
+		skip := op.A % 4 / 2 // 0: all off-path keys, 1: every other one
+		for i, k := range ks {
+			if onPath[k.K] || (skip == 1 && i%2 == 1) {
+				continue
+			}
+			r.sub = i
+			if msg := r.doRemove(in, k.K); msg != "" {
+				return msg
+			}
+		}
+		if len(in.m.ks)*2 < in.hiWater {
+			r.drained++
+		}
+		r.pruned++
 		return ""
 	case "bulkremove":
 		// remove every (A+2)-th key: scattered removals
